@@ -155,7 +155,7 @@ def harnesses(tier):
 ORACLES = [
     {'name': 'budget directories run through the real `tally up --format json -v` (in process) against an independent report computed from the files; '
              'one-setting-at-a-time perturbations (locality); missing / unreadable sources', 'script': 'C11.py',
-     'bound': '3 sources x settings {delimiter (default, tab keyword, ';', literal tab, '|'), has_header, decimal_separator, negate_amount, supplemental, a supplemental source with its own separators, missing file, unreadable file, rule_mode, views}'},
+     'bound': '3 sources x settings {delimiter (default, tab keyword, semicolon, literal tab, pipe), has_header, decimal_separator, negate_amount, supplemental, a supplemental source with its own separators, missing file, unreadable file, rule_mode, views}'},
 ]
 TRUSTED_BASE = ['pyvc symbolic executor', 'z3 5.1.0 / cvc5 1.0.3',
                 'callees of cmd_run are uninterpreted deterministic functions of their arguments (their own contracts: C05 parse_generic_csv, C06 analyze_transactions, C10 views, C12 renderers)',
